@@ -364,6 +364,13 @@ func (o *oracles) beforePost(j *jobRec) {
 func (o *oracles) afterPost(j *jobRec) {
 	if j.kind == simrt.KindConvert {
 		o.convJobActive = false
+		// output a job stored for a superseded payload may live until the job
+		// completes, not longer: what is still stale now is judged afresh
+		for k := range o.firstSeen {
+			if strings.HasPrefix(k, "conv/") && strings.HasSuffix(o.firstSeen[k], "@body:convert") {
+				delete(o.firstSeen, k)
+			}
+		}
 	}
 	if o.s.plan.NoOracle {
 		return
